@@ -196,7 +196,7 @@ class ToCartesian(Angle):
         logger.debug(f"Using mode: {self.mode}")
 
         self._zero_bound = False
-        self._k = self.prior_bounds[self.parameters[0]][1]
+        self._k = np.ptp(self.prior_bounds[self.parameters[0]])
 
     def _rescale_angle(
         self, x, x_prime, log_j, compute_radius=False, **kwargs
